@@ -17,6 +17,7 @@ From Annet Require Import Base.Str Base.Tree Model.Pattern Model.Rulebook Model.
      Model.Blocks Model.Pipeline Model.Device Spec.P_C01
      Proofs.ConvergeDevice Proofs.ConvergeRun Proofs.ConvergeBlocks Proofs.ConvergeSim Proofs.ConvergeMain
      Proofs.ConvergeTop Proofs.ConvergeSecond Proofs.ConvergeFinal Proofs.ConvergeReport.
+From Annet Require Import Spec.P_C01o Spec.P_C01ord Proofs.ConvergeOrdSeq Proofs.ConvergeOrdFlat.
 Import ListNotations.
 Open Scope string_scope.
 
@@ -267,3 +268,96 @@ Definition C01_ordered_statement : Prop :=
 
 (* order_ok on every shipped pair of ordering and patching rulebook: needs the translator of the shipped rule texts
    (coq/Gen/Src_rules.v of DESIGN 2.3), which does not exist yet. *)
+
+(* ---------- %ordered rules: the flat case, proved; the general case, refuted as it stands ---------- *)
+
+(* C01_ordered_flat.  A level all of whose rows are leaves governed by one %ordered rule (ordered_diff +
+   logic `ordered`), old and new of ANY length, in the computable domain [wf_ord_flat] (Spec/P_C01ord.v:
+   block formatter family, the key determines the row on the universe of rows of old and new, unambiguous
+   removal commands, [order_ok_o]): the patch is computed and executing the model's command paths on old
+   yields new - EQUAL AS A FOREST, i.e. the same rows in the same sequence (which is stronger than [sim] and
+   than [seq_agree] of Spec/P_C01o.v).  Proof: Proofs/ConvergeOrdSeq.v (the device on such a level is a list
+   machine; a command sequence with the three properties below turns old into new), Proofs/ConvergeOrdFlat.v
+   (make_diff of two such levels explicitly - common prefix UNCHANGED, then ADDED/MOVED in new's order,
+   REMOVED interleaved -, make_pre/make_patch of it, stability of the sort on the equal keys of the direct
+   commands, undo-before-redo from [undo_first_b]). *)
+Theorem C01_ordered_flat :
+  forall v rs ordering old new, wf_ord_flat v rs ordering old new = true ->
+  exists pt, snd (diff_and_patch v rs ordering old new) = POk pt /\
+             p_exec v rs (cmd_paths (v_family v) pt) old = new.
+Proof. exact ordered_flat_model. Qed.
+Print Assumptions C01_ordered_flat.
+
+(* ... hence also as a dict *)
+Theorem C01_ordered_flat_sim :
+  forall v rs ordering old new, wf_ord_flat v rs ordering old new = true ->
+  exists pt, snd (diff_and_patch v rs ordering old new) = POk pt /\
+             sim (p_exec v rs (cmd_paths (v_family v) pt) old) new.
+Proof.
+  intros v rs ordering old new H. destruct (ordered_flat_model v rs ordering old new H) as (pt & Hp & He).
+  exists pt. split; [exact Hp|]. rewrite He. apply sim_refl.
+Qed.
+Print Assumptions C01_ordered_flat_sim.
+
+(* the list machine behind it, for command sequences of any length: direct commands of new's rows after the
+   common prefix P in new's order, a removal exactly for old's rows after P, no removal after the direct
+   command of its row  ==>  P ++ M becomes P ++ D *)
+Theorem C01_ordered_machine :
+  forall (P M D : list string) (cs : list cmd),
+    NoDup (P ++ M)%list -> NoDup (P ++ D)%list -> dirs cs = D ->
+    (forall r, In (false, r) cs -> In r M) -> (forall r, In r M -> In (false, r) cs) ->
+    (forall l1 r l2, cs = (l1 ++ (true, r) :: l2)%list -> ~ In (false, r) l2) ->
+    fold_left lstep cs (P ++ M)%list = (P ++ D)%list.
+Proof. exact machine_converges. Qed.
+Print Assumptions C01_ordered_machine.
+
+(* non-vacuity: five rows become six - one kept in front, two inserted, two moved, one removed *)
+Definition c01_of_rules : rset :=
+  ([PRule "entry * %ordered" false (Attrs "entry *" LOrdered DOrdered false false) [] []], []).
+Definition c01_of_old : forest := leaves ["entry 1"; "entry 2 a"; "entry 3"; "entry 4"; "entry 5"].
+Definition c01_of_new : forest := leaves ["entry 1"; "entry 9"; "entry 4"; "entry 2 a"; "entry 5"; "entry 8"].
+Example C01_ordered_flat_nonvacuous :
+  wf_ord_flat c01_ex_v c01_of_rules [] c01_of_old c01_of_new = true /\
+  model_paths c01_ex_v c01_of_rules [] c01_of_old c01_of_new =
+    Some [["undo entry 4"]; ["undo entry 3"]; ["undo entry 2"]; ["undo entry 5"];
+          ["entry 9"]; ["entry 4"]; ["entry 2 a"]; ["entry 5"]; ["entry 8"]].
+Proof. vm_compute. split; reflexivity. Qed.
+
+(* C01_ordered_retext_refuted.  The guard "the key determines the row" is necessary, and the order-sensitive
+   reading of convergence is FALSE for %ordered rules in general - of the model and of the real pipeline
+   (replayed by the check, known finding C01/ordered/retext-reorders):  old = [entry 2 x; entry 5; entry 6],
+   new = [entry 7; entry 1 y; entry 2 y], one rule `entry * %ordered`.  The row of key 2 changes its text; its
+   REMOVED entry sits in the diff before `entry 1 y`, make_pre groups ADDED and REMOVED of key 2 under the
+   position of the first of them, so the direct command `entry 2 y` is emitted BEFORE `entry 1 y`.  The input
+   is inside the ordered domain of Spec/P_C01o.v (wf_step_o, order_ok_o); the device reaches new as a dict
+   (sim_b) but with rows 1 and 2 swapped (seq_agree false); a second run repairs the order. *)
+Definition c01_rt_old : forest := leaves ["entry 2 x"; "entry 5"; "entry 6"].
+Definition c01_rt_new : forest := leaves ["entry 7"; "entry 1 y"; "entry 2 y"].
+Theorem C01_ordered_retext_refuted :
+  wf_step_o c01_ex_v c01_of_rules c01_rt_old c01_rt_new = true /\
+  order_ok_o c01_ex_v c01_of_rules [] c01_rt_old c01_rt_new = true /\
+  ord_flat_dom c01_ex_v c01_of_rules (keys c01_rt_old ++ keys c01_rt_new)%list = false /\
+  model_paths c01_ex_v c01_of_rules [] c01_rt_old c01_rt_new =
+    Some [["undo entry 5"]; ["undo entry 6"]; ["entry 7"]; ["entry 2 y"]; ["entry 1 y"]] /\
+  (let dev := p_exec c01_ex_v c01_of_rules [["undo entry 5"]; ["undo entry 6"]; ["entry 7"]; ["entry 2 y"]; ["entry 1 y"]] c01_rt_old in
+   dev = leaves ["entry 7"; "entry 2 y"; "entry 1 y"] /\ sim_b dev c01_rt_new = true /\
+   p_seq_agree c01_of_rules dev c01_rt_new = false /\
+   model_paths c01_ex_v c01_of_rules [] dev c01_rt_new =
+     Some [["undo entry 1"]; ["undo entry 2"]; ["entry 1 y"]; ["entry 2 y"]]).
+Proof. vm_compute. repeat split; reflexivity. Qed.
+Print Assumptions C01_ordered_retext_refuted.
+
+(* Still stated only: %ordered rows with bodies (nested children), %ordered rows mixed with rows of other rules on
+   the same level, %ordered levels below a block header.  What is needed beyond C01_ordered_flat: the slot-by-slot
+   analysis of Proofs/ConvergeMain.v carried through ordered_diff (children of a MOVED row are all MOVED/ADDED:
+   C03_moved_all_depths) and the frame rule "commands of other slots do not change the relative order of the
+   %ordered rows" (C01_exec_commute gives it for the dict reading only). *)
+Definition C01_ordered_general_statement : Prop :=
+  forall v rs ordering old new pt,
+    block_family (v_family v) = true -> snd (diff_and_patch v rs ordering old new) = POk pt ->
+    wf_step_o v rs old new = true -> order_ok_o v rs ordering old new = true ->
+    (* no %ordered key changes its row text *)
+    (forall r r' s s', In r (keys old) -> In r' (keys new) -> slot_of pm rs r = Some s -> slot_of pm rs r' = Some s' ->
+                       is_ordered s = true -> same_slot s s' = true -> r = r') ->
+    let dev := p_exec v rs (cmd_paths (v_family v) pt) old in
+    sim (p_prune rs dev) (p_prune rs (p_expected rs old new)) /\ p_seq_agree rs dev new = true.
